@@ -324,7 +324,14 @@ fn parse_tuple_literal_or_parentheses(
             }
 
             let start_idx = tokens.idx;
-            exprs.push(parse_expression(tokens, id_gen, diagnostics));
+            let expr = parse_expression(tokens, id_gen, diagnostics);
+            if tokens.idx <= start_idx {
+                // We couldn't parse an expression here, e.g. `(1,,)`,
+                // and that has been reported. Give up on this tuple.
+                break;
+            }
+
+            exprs.push(expr);
             assert!(
                 tokens.idx > start_idx,
                 "The parser should always make forward progress."
